@@ -28,3 +28,15 @@ func VerifLexerTrace(input string) [][5]int {
 	}
 	return out
 }
+
+// VerifDup exposes (*Entry).dup (the deep copy made for every `uses`).
+func VerifDup(e *Entry) *Entry { return e.dup() }
+
+// VerifAdd exposes (*Entry).add.
+func VerifAdd(e *Entry, key string, value *Entry) *Entry { return e.add(key, value) }
+
+// VerifMerge exposes (*Entry).merge.
+func VerifMerge(e *Entry, prefix, namespace *Value, oe *Entry) { e.merge(prefix, namespace, oe) }
+
+// VerifNamespaceField returns the unexported namespace stamp of e itself (no walk to the parents).
+func VerifNamespaceField(e *Entry) *Value { return e.namespace }
